@@ -57,7 +57,7 @@ LEVEL_TEXT = ("Theorems (Lean 4, all (ip,len), no size bound): every derived val
               "shortest lower-case hex writing of the address, both families (hex_spec); as_hex_tuple is four 2-digit (v4) / eight 4-digit (v6) "
               "hex texts whose values are the octets / groups (hex_tuple_spec); as_binary_tuple is four 8-digit / eight 16-digit binary texts "
               "with the same values (binary_spec); str(n), '%x', '%b' are the shortest decimal / hex / binary writings for every natural "
-              "number (shortest_numerals); the octets / groups are the base-256 / base-65536 digits of the address (octets_groups_value). "
+              "number (shortest_numerals); the dotted quad is the four octets in shortest decimal joined by dots, '/len' appends len in shortest decimal (dotted_spec); the octets / groups are the base-256 / base-65536 digits of the address (octets_groups_value). "
               "as_cidr_addr / as_cidr_net / numhosts / as_decimal* were already part of v4_values_agree / v6_values_agree. "
               "The model (its re-implementation of the stdlib parsing routines and of "
               "the two regexes included) is tied to the code by differential runs on every check, and the implementation's answers are "
